@@ -221,6 +221,7 @@ def step (st : St) (line : String) : St × String :=
   | ["axisfree"] => (st, "opaque")
   | "divide" :: _ => (st, "opaque")
   | ["popclear"] => (st, "opaque")
+  | ["seed", _] => (st, "opaque")
   | ["popready"] => (st, "opaque")
   | ["poptake", _] => (st, "opaque")
   | "popadd" :: _ => (st, "opaque")
